@@ -314,6 +314,9 @@ def blackbox(ck):
             if rc != 0 or errs or not done:
                 ck.broken.append("black box c11bb failed (ptnum %d): rc=%d %s" % (ptnum, rc, (errs[0]["msg"] if errs else out[-400:])))
                 continue
+            counts_off = any(o["kind"] == "info" and "acknowledged" in (o.get("msg") or "") for o in outs)
+            strict_n = sum(1 for o in outs if o["kind"] == "query" and o.get("strict"))
+            ck.cov["blackbox_strict_time_range_queries"] = ck.cov.get("blackbox_strict_time_range_queries", 0) + strict_n
             for o in outs:
                 if o["kind"] == "info" and "acknowledged" in (o.get("msg") or ""):
                     ck.notes.append("black box: " + o["msg"])
@@ -339,6 +342,15 @@ def blackbox(ck):
                         ck.violation({"kind": "black-box", "what": "ts-server with ptnum-pernode 1 and %d give different answers to %s: %d vs %d rows; "
                                       "rows returned by one only: %s" % (ptnum, o["q"], len(o["a"]), len(o["b"]), (o.get("lines") or [])[:4]),
                                       "ptnum": ptnum, "query": o, "seed": ck.seed + k})
+                elif o.get("strict") and o["a"] != o["exp"] and not counts_off:
+                    # a pure time-range query (bounds on / next to shard-group boundaries): both servers agree with each other
+                    # but not with the acknowledged rows - a row sits in a group the time range does not select, or is lost
+                    diff += 1
+                    if diff <= 3:
+                        ck.violation({"kind": "black-box-time", "what": "both servers answer %s with %d rows, the acknowledged rows "
+                                      "inside the time range are %d: only in the answer %s, missing %s" % (
+                                          o["q"], len(o["a"]), len(o["exp"]), sorted(set(o["a"]) - set(o["exp"]))[:5],
+                                          sorted(set(o["exp"]) - set(o["a"]))[:5]), "ptnum": ptnum, "query": o, "seed": ck.seed + k})
                 elif o["a"] != o["exp"]:
                     refdiff += 1
                     if refdiff <= 2:
